@@ -253,12 +253,14 @@ def _parse_npath(npath: str) -> list[_NPathSegment]:
             finalize_segment()
             continue
         if ch == '"':
-            if buffer:
+            if buffer or quoted_segment:
                 raise ValueError(
                     "Quoted NPath segments must start at the segment boundary"
                 )
             in_quotes = True
             continue
+        if quoted_segment:
+            raise ValueError("Quoted NPath segments must end at the segment boundary")
         buffer.append(ch)
 
     if escape:
